@@ -189,7 +189,9 @@ def run_check():
 
     ncases = 220 if ck.tier == "quick" else 3000
     reqs, ctxs = [], []
-    for res in pmap(make_case, [(ck.seed, i) for i in range(ncases)]):
+    from ..common import replay_ids
+
+    for res in pmap(make_case, [(ck.seed, i) for i in replay_ids(ck, ncases)]):
         for req, ctx in res:
             if req == "CRASH":
                 ck.fail("stats", ctx["what"], ctx["case"], None)
@@ -199,7 +201,7 @@ def run_check():
     resps = run_driver(reqs)
     for req, ctx, resp in zip(reqs, ctxs, resps):
         st, mo = parse_resp(resp)
-        case = dict(ctx["desc"], pos={k: int(v) for k, v in ctx["pos"].items()}, freq=[float(x) for x in ctx["freq"]],
+        case = dict(ctx["desc"], icase=ctx["icase"], pos={k: int(v) for k, v in ctx["pos"].items()}, freq=[float(x) for x in ctx["freq"]],
                     dirs=None if ctx["dirs"] is None else [float(x) for x in ctx["dirs"]], E=np.asarray(ctx["E"]).tolist())
         ck.case(ctx["sig"], ctx["nontrivial"], sample=dict(case=ctx["desc"], model={k: str(v)[:40] for k, v in list(mo.items())[:6]} if st == "ok" else resp))
         if st != "ok":
